@@ -110,12 +110,12 @@ theorem hyp_of_typed (cfg : Cfg) (hcfg : cfg ∈ x86Cfgs ∨ cfg.arch = .a64) (f
     intro i hi d s
     rw [params_src cfg f vals i hi, params_out cfg f vals i hi, patch_regType]
     exact typed_moves_ok cfg hcfg _ i _ _ _ _ (ht i hi) (params_vis cfg f vals hr i hi) d s
-  refine ⟨fun i d s hi _ _ => (hmoves i hi d s).1, fun i d s b hi _ _ => (hmoves i hi d s).2 b, ?_, ?_⟩
+  refine ⟨fun i d s hi _ _ _ => (hmoves i hi d s).1, fun i d s b hi _ _ => (hmoves i hi d s).2 b, ?_, ?_⟩
   · intro i hi
     have hi' : i < vals.length := hi
     rw [params_src cfg f vals i hi', params_out cfg f vals i hi']
     exact params_vis cfg f vals hr i hi'
-  · intro i hi hsw
+  · intro i hi _ hsw
     have hi' : i < vals.length := hi
     rw [params_src cfg f vals i hi', params_out cfg f vals i hi', patch_regType] at *
     have hg : groupOf (dstAt vals i).regType = 0 := by
